@@ -1,0 +1,16 @@
+//go:build verif
+
+package z
+
+import "sync/atomic"
+
+// VerifHook is nil unless a verification harness installs a function (build tag `verif` only).
+// Hook points call it with a point id and two point-specific values; the harness may record the
+// call or block the calling goroutine (gate).
+var VerifHook atomic.Pointer[func(id int, a, b uint64)]
+
+func verifPoint(id int, a, b uint64) {
+	if f := VerifHook.Load(); f != nil {
+		(*f)(id, a, b)
+	}
+}
